@@ -119,6 +119,13 @@ def check(run):
         if 0xd800 <= c < 0xe000:
             continue
         strs.append(rng.choice([[c], [c, 0x301], [c, 0x323], [0x61, c], [c, 0x11a8], [0xe9, c], [c, 0x323, 0x301]]))
+    # Hangul: every trailing consonant (and the code points just outside the range) after LV syllables, every L/V boundary
+    for t in range(0x11A7, 0x11C4):
+        for _ in range(2):
+            strs.append([0xAC00 + 28 * rng.randrange(19 * 21), t])
+    for l in (0x10FF, 0x1100, 0x1112, 0x1113):
+        for v in (0x1160, 0x1161, 0x1175, 0x1176):
+            strs.append([l, v, rng.choice([0x11A7, 0x11A8, 0x11C2, 0x11C3])])
     m, c1 = lib.run_lines(binp, ["idna_map " + show(x) for x in strs])
     a, c2 = lib.run_lines(binp, ["idna_nfc " + y for y in m])
     asg = oracle(["assigned " + y.split(",")[0] if y != "-" else "assigned 61" for y in m])
